@@ -83,7 +83,8 @@ CHECKS = {
                 "and the final pairing summation (rules 9, 10) are decided "
                 "likewise; every increment is proven non-negative under its "
                 "guards; both scratch tables are reset before use; every "
-                "limit is consumed.",
+                "limit is consumed."
+                " D7.6: both scratch tables have an integer type covering -1 .. days-1 (a type taken from an attribute is looked up where it is assigned).",
         "design_ref": "DESIGN.md section 4, C07 and 10.2",
         "note": "By induction over the scan the returned value is the "
                 "documented per-rule count, hence 0 exactly for plans that "
@@ -155,7 +156,8 @@ CHECKS = {
                 "decodes to its pair, so each pairing occurs exactly "
                 "`rounds` times; the orientation follows the round's "
                 "parity except in the last of an odd number of rounds, so "
-                "home/away roles per pairing differ by at most one.",
+                "home/away roles per pairing differ by at most one."
+                " An `else` of the day scan that leaves the loop over the games is reported (later games would be lost).",
         "design_ref": "DESIGN.md section 4, C15",
         "note": "Does NOT decide the home/away balance per TEAM in the "
                 "special last round (parity argument over the triangular "
@@ -206,7 +208,8 @@ CHECKS = {
                 "back unchanged (scope stripping of csv_select_scope "
                 "modelled, skip_orig_key predicates folded on the keys the "
                 "repository produces); every range accepted by "
-                "Instance.__new__ is accepted by from_compact_str.",
+                "Instance.__new__ is accepted by from_compact_str."
+                " Optional CSV cells must test presence (`k in d`, `is not None`), not the truthiness of the value (a legitimate 0 would be written as empty).",
         "design_ref": "DESIGN.md section 4, C19",
         "note": "Does NOT decide equality of values / derived attributes "
                 "after a round trip (runtime conversion). Relies on the "
@@ -228,7 +231,8 @@ CHECKS = {
                 "a result record parsed from a log is assembled from the "
                 "parsed packing, its instance and each objective's own "
                 "evaluate / lower_bound / upper_bound under that "
-                "objective's name.",
+                "objective's name."
+                " Whatever Hardness.evaluate keeps in self between evaluations depends on the evaluated instance only through its name (the memo key).",
         "design_ref": "DESIGN.md section 4, C12",
         "note": "Does NOT decide run behaviour: termination within budget, "
                 "feasibility of final solutions, logged value = "
@@ -358,7 +362,8 @@ CHECKS = {
                 "the covering items with its right edge, running minimum of "
                 "later starts) on all comparison outcomes plus the segment "
                 "arithmetic and continuation; the kernels receive the "
-                "instance's bin width and height in this order.",
+                "instance's bin width and height in this order."
+                " Loop-carried names of the per-bin sweep (area accumulator, position) must be set again at the start of every bin.",
         "design_ref": "DESIGN.md section 4, C02 and 10.2",
         "note": "Decides D2.1-D2.6. Not decided: validity of lower_bound() "
                 "for the objectives with a secondary term, dominance "
@@ -443,7 +448,8 @@ CHECKS = {
                 "buffer identity) to prove lb anti-sorted / ub co-sorted "
                 "without aliasing or clobbered operands; the constructor "
                 "only tightens; the parser binds the first-filled list to "
-                "`flows`.",
+                "`flows`."
+                " The matrices are stored with the integer type of [0, stored upper bound]; the text loader's token range covers the largest bound the constructor accepts.",
         "design_ref": "DESIGN.md section 4, C09",
         "note": "Decides D9.1-D9.4. Not decided: independence of line "
                 "wrapping (runtime tokenisation). Trusted: N1, property "
@@ -461,7 +467,8 @@ CHECKS = {
                 "contiguous bins, n_bins) on all weak orderings of the "
                 "compared values - exhaustive up to order-isomorphism of "
                 "packings; loop completeness and from_str->validate "
-                "must-pass-through are decided on the CFG.",
+                "must-pass-through are decided on the CFG."
+                " Membership tests in displays / tuples are read as equalities; a clause whose only guard cannot be normalised ends undecided, not as a violation.",
         "design_ref": "DESIGN.md section 4, C04",
         "note": "Decides D4.1, D4.1L, D4.1T, D4.2. Not decided: value-level "
                 "equality of the text round trip (numpy conversion); extra "
@@ -486,7 +493,8 @@ CHECKS = {
                 "generator: parameter-counter protocol, layer protocol "
                 "(abstract interpretation), the exact templates of the "
                 "emitted statements, definition of inputs, unique fresh "
-                "names, and the CodeGenerator's line/indent protocol.",
+                "names, and the CodeGenerator's line/indent protocol."
+                " D16.9: the cache of make_ann is keyed by every parameter, looked up and filled under the same key, and what is cached is what is returned.",
         "design_ref": "DESIGN.md section 4, C16 and 10.2",
         "note": "Decides D16.0-D16.8. Does not decide: the value returned "
                 "by the min-ANN minimisers, the predefined literature "
